@@ -6,9 +6,9 @@ import (
 	"errors"
 	"fmt"
 	"io"
-	"regexp"
 	"os"
 	"path/filepath"
+	"regexp"
 	"runtime"
 	"runtime/debug"
 	"strings"
@@ -134,14 +134,22 @@ func (env *Env) run(c *Case) *Result {
 		switch c.Opts.TargetOpt {
 		case "slash":
 			targetOpt = target + "/"
-		case "rel", "default", "raw", "short":
+		case "rel", "default", "raw", "short", "tilde":
 			cwd, err := os.Getwd()
 			if err != nil {
 				res.Infra = "getwd: " + err.Error()
 				return res
 			}
 			restoreCwd = cwd
-			if c.Opts.TargetOpt == "short" {
+			if c.Opts.TargetOpt == "tilde" {
+				// a relative name that begins with '~' ("~t", a symbolic link to the target beside it)
+				if err := os.Chdir(filepath.Join(base, "work")); err != nil {
+					res.Infra = "chdir: " + err.Error()
+					return res
+				}
+				os.Symlink("target", filepath.Join(base, "work", "~t"))
+				targetOpt = "~t"
+			} else if c.Opts.TargetOpt == "short" {
 				// a one-character relative name ("t", a symbolic link to the target beside it)
 				if err := os.Chdir(filepath.Join(base, "work")); err != nil {
 					res.Infra = "chdir: " + err.Error()
@@ -269,9 +277,11 @@ func (env *Env) run(c *Case) *Result {
 
 	// callback
 	var vmu sync.Mutex
+	var keptCb []*gtree.WalkerNode // nodes handed to the callback, read again after the call has returned
 	var visits []Visit
 	var nvisit int
 	stopped := false
+	cbErr := CallbackErr(c.Faults.CbErrKind)
 	callback := func(wn *gtree.WalkerNode) error {
 		if c.Sched.CbYieldUs > 0 {
 			time.Sleep(time.Duration(c.Sched.CbYieldUs) * time.Microsecond)
@@ -286,12 +296,13 @@ func (env *Env) run(c *Case) *Result {
 			res.VisitsAfter++
 		}
 		visits = append(visits, Visit{Name: wn.Name(), Branch: wn.Branch(), Row: wn.Row(), Level: wn.Level(), Path: wn.Path(), HasChild: wn.HasChild()})
+		keptCb = append(keptCb, wn)
 		if c.Cancel.Kind == "atCallback" && idx >= c.Cancel.K {
 			cancel()
 		}
 		if c.Faults.CallbackFailAt >= 0 && idx == c.Faults.CallbackFailAt {
 			stopped = true
-			return ErrCallback
+			return cbErr
 		}
 		return nil
 	}
@@ -302,6 +313,17 @@ func (env *Env) run(c *Case) *Result {
 		defer t.Stop()
 	}
 
+	var rdI io.Reader = rd
+	var wrI io.Writer = wr
+	var rdCloser *faultReaderCloser
+	switch c.Faults.IOKind {
+	case 1:
+		rdI, wrI = faultReaderWT{rd}, recStringWriter{wr}
+	case 2:
+		rdCloser = &faultReaderCloser{faultReader: rd}
+		rdI = rdCloser
+	}
+	var kept []*gtree.WalkerNode // nodes handed to the caller, read again after the walk has ended
 	call := func() (err error) {
 		opts := c.Opts.Options(ctx, targetOpt)
 		var node *gtree.Node
@@ -331,20 +353,20 @@ func (env *Env) run(c *Case) *Result {
 		case "output":
 			switch {
 			case md && !alias:
-				return gtree.OutputFromMarkdown(wr, rd, opts...)
+				return gtree.OutputFromMarkdown(wrI, rdI, opts...)
 			case md:
-				return gtree.Output(wr, rd, opts...)
+				return gtree.Output(wrI, rdI, opts...)
 			case alias:
-				return gtree.OutputProgrammably(wr, node, opts...)
+				return gtree.OutputProgrammably(wrI, node, opts...)
 			default:
-				return gtree.OutputFromRoot(wr, node, opts...)
+				return gtree.OutputFromRoot(wrI, node, opts...)
 			}
 		case "walk":
 			switch {
 			case md && !alias:
-				return gtree.WalkFromMarkdown(rd, callback, opts...)
+				return gtree.WalkFromMarkdown(rdI, callback, opts...)
 			case md:
-				return gtree.Walk(rd, callback, opts...)
+				return gtree.Walk(rdI, callback, opts...)
 			case alias:
 				return gtree.WalkProgrammably(node, callback, opts...)
 			default:
@@ -370,20 +392,31 @@ func (env *Env) run(c *Case) *Result {
 				if stopped {
 					res.VisitsAfter++
 				}
-				visits = append(visits, Visit{Name: wn.Name(), Branch: wn.Branch(), Row: wn.Row(), Level: wn.Level(), Path: wn.Path(), HasChild: wn.HasChild()})
+				kept = append(kept, wn) // the node is read after the loop: it must stay what it was when it was yielded
 				if c.Faults.BreakAt >= 0 && i == c.Faults.BreakAt {
 					stopped = true
 					break
 				}
 				i++
 			}
+			for _, wn := range kept {
+				visits = append(visits, Visit{Name: wn.Name(), Branch: wn.Branch(), Row: wn.Row(), Level: wn.Level(), Path: wn.Path(), HasChild: wn.HasChild()})
+			}
+			if c.RangeTwice {
+				for _, e := range seq {
+					if e != nil {
+						return e
+					}
+					res.SecondVisits++
+				}
+			}
 			return nil
 		case "mkdir":
 			switch {
 			case md && !alias:
-				return gtree.MkdirFromMarkdown(rd, opts...)
+				return gtree.MkdirFromMarkdown(rdI, opts...)
 			case md:
-				return gtree.Mkdir(rd, opts...)
+				return gtree.Mkdir(rdI, opts...)
 			case alias:
 				return gtree.MkdirProgrammably(node, opts...)
 			default:
@@ -392,9 +425,9 @@ func (env *Env) run(c *Case) *Result {
 		case "verify":
 			switch {
 			case md && !alias:
-				return gtree.VerifyFromMarkdown(rd, opts...)
+				return gtree.VerifyFromMarkdown(rdI, opts...)
 			case md:
-				return gtree.Verify(rd, opts...)
+				return gtree.Verify(rdI, opts...)
 			case alias:
 				return gtree.VerifyProgrammably(node, opts...)
 			default:
@@ -425,7 +458,7 @@ func (env *Env) run(c *Case) *Result {
 		res.Err.Text = err.Error()
 		res.Err.IsReader = errors.Is(err, ErrReader)
 		res.Err.IsWriter = errors.Is(err, ErrWriter)
-		res.Err.IsCallback = err == ErrCallback
+		res.Err.IsCallback = err == cbErr
 		if ce := ctx.Err(); ce != nil {
 			res.Err.IsCtx = errors.Is(err, ce)
 		}
@@ -456,7 +489,16 @@ func (env *Env) run(c *Case) *Result {
 	res.ReadBytes = rd.read
 	res.LateReadBytes = rd.late
 	rd.mu.Unlock()
+	if rdCloser != nil {
+		res.CloseDuringRead = rdCloser.badClose.Load()
+	}
 	vmu.Lock()
+	if len(keptCb) == len(visits) && len(keptCb) > 0 && !c.Opts.Massive {
+		// what the callback saw must still be what the nodes say once the walk is over
+		for i, wn := range keptCb {
+			visits[i] = Visit{Name: wn.Name(), Branch: wn.Branch(), Row: wn.Row(), Level: wn.Level(), Path: wn.Path(), HasChild: wn.HasChild()}
+		}
+	}
 	res.Visits = visits
 	vmu.Unlock()
 	reachedMu.Lock()
